@@ -426,7 +426,8 @@ def hx_sources():
                   if f.endswith(".c") and (f in ("hx.c", "wrap_sys.c") or f.startswith("ops_")))
 
 
-WRAP_FLAGS = ["-Wl,--wrap=mmap,--wrap=munmap,--wrap=mprotect,--wrap=mlock,--wrap=munlock,--wrap=malloc,--wrap=calloc,--wrap=posix_memalign,--wrap=free"]
+WRAP_FLAGS = ["-Wl,--wrap=mmap,--wrap=munmap,--wrap=mprotect,--wrap=mlock,--wrap=munlock,--wrap=malloc,--wrap=calloc,--wrap=posix_memalign,--wrap=free",
+              "-Wl,--wrap=getentropy,--wrap=gettimeofday,--wrap=getpid,--wrap=open"]   # second group: scripted entropy / clock / pid for C18 rngint (pass-through unless switched on)
 
 
 def build_lib(ctx, variant, flavour="plain"):
